@@ -29,12 +29,17 @@ def graphs():
             ga2.setdefault(a2, set())
         ga = ga2
     gb = {}
+    graphs.approx = set()
     for n, callees in mir.call_graph().items():
         p = mir.bodies[n].parent
         for c in callees:
-            if (n, c) in mir.approx_edges:
-                continue        # over-approximated dispatch (trait objects, function pointers, ..): not an edge the compiler resolved
             cp = mir.bodies[c].parent
+            if (n, c) in mir.approx_edges:
+                # over-approximated dispatch (trait objects, function pointers, ..): not an edge the compiler resolved - Engine A may have it (it
+                # follows a function read out of a literal table) but need not
+                if cp != p:
+                    graphs.approx.add((p, cp))
+                continue
             if cp != p:
                 gb.setdefault(p, set()).add(cp)
             elif mir.bodies[c].kind != 'Closure' and c == n:
@@ -69,7 +74,7 @@ def compare():
     ga, gb, ogp, mir = graphs()
     ea = {(norm(a), norm(b)) for a, bs in ga.items() for b in bs if not a.startswith('<') and not b.startswith('<') and '::<' not in b and '::<' not in a}
     eb = {(norm(a), norm(b)) for a, bs in gb.items() for b in bs if not a.startswith('<') and not b.startswith('<')}
-    only_a = sorted(ea - eb)
+    only_a = sorted(ea - eb - {(norm(a), norm(b)) for a, b in graphs.approx})
     only_b = sorted(eb - ea)
     return ea, eb, only_a, only_b
 
